@@ -162,9 +162,8 @@ def run(tier, seed):
                feature_histogram=feats, size_histogram=stats, kernel_reevaluated=nk,
                samples=[dict(spec=gen.spec_jsonable(s0[0]), semiring=repr(s0[1]), method=s0[2], observed=s0[3])] if s0 else [],
                open_items=[
-                   "proved (Props/C01.v, generic in the semiring): C01_check_oracle_sound (verdict 0 => observation accepted against Zk at #nonterminals), C01_Zk_is_tree_sum, C01_enum_trees_spec/NoDup, C02_kleene_is_bounded_depth, C01_Zk_stable, C01_rank_normalise, C01_nonrec_all_trees, C01_spe_eq_rule_val (+ _total_env, _none_is_zero, _body_eq), C01_sum_products_nonrec_Zk, C01_Ztab_is_Zk, C01_sum_products_eq_spec, shape corollaries, Bool instance",
-                   "open (tier B): composition with C19 is reduced to one implication: C01_sum_products_eq_spec_scc holds for every order with scc_ok (nt_graph G) order = true and nonrecursive_order G order = true (proved); missing is scc g = Some cs -> scc_ok g cs = true (full Tarjan theorem, C19) and closed (nt_graph G); until then covered per case by verdict 20 (code-shaped model table = Ztab table)",
-                   "open: instances of C01_sum_products_eq_spec for ereal_ops / trop_ops wait for the sr_ring law proofs of C08 (the theorems keep the law premise explicit; 0 * inf = 0 is the annihilation law of that instance)",
+                   "proved (Props/C01.v, generic in the semiring): C01_check_oracle_sound (verdict 0 => observation accepted against Zk at #nonterminals), C01_Zk_is_tree_sum, C01_enum_trees_spec/NoDup, C02_kleene_is_bounded_depth, C01_Zk_stable, C01_rank_normalise, C01_nonrec_all_trees, C01_spe_eq_rule_val (+ _total_env, _none_is_zero, _body_eq), C01_sum_products_nonrec_Zk, C01_Ztab_is_Zk, C01_sum_products_eq_spec, shape corollaries; composed with C08 and C19 (Proofs/Instances_scc.v, Proofs/Instances.v): C01_nt_graph_closed (the nonterminal graph of every grammar is closed), C01_scc_order_accepted, C01_nonrecursive_iff_ranked, C01_end_to_end (+ _ranked) and the premise-free carrier instances C01_end_to_end_real / _viterbi / _bool, C01_real/_viterbi_sum_products_eq_spec, C01_real/_viterbi_Zk_is_tree_sum, C01_check_oracle_sound_trees and C01_real/_viterbi/_bool_check_oracle_sound(_trees) (verdict 0 => observation accepted against the sum over ALL derivation trees), C01_weights_keys_terminal",
+                   "side condition of the end-to-end theorems: the keys of the weight table are terminals (C01_weights_keys_terminal: forallb (fun p => is_term G (fst p)) ws = true suffices); sp_check does not test it, the harness lists only weighted terminals, and a nonterminal key would surface as verdict 20 (see notes/GLUE.md)",
                    "open: the float kernels of torch (einsum, logsumexp) are compared numerically per case, not proved"])
     return cov, violations
 
